@@ -354,6 +354,15 @@ def r3(case, rec):
         f1 = np.asarray(np.ma.getdata(cache1.integrate([mu, sigma], None, PDFs.lognormal, theta, None)), float)
         f2 = np.asarray(np.ma.getdata(cache2.integrate([mu, sigma, rho], None, PDFs.biv_lognormal, theta, None)), float)
     require_close(got, (1 - p2d) * f1 + p2d * f2, 1e-12, 'mixture = (1-p2d) x 1-D component + p2d x 2-D component', rec, key='mixture')
+    # the same without the out-of-range masses (exterior_int=False must reach both components)
+    with dadi_call('DFE.mixture(exterior_int=False)'):
+        got_in = np.asarray(np.ma.getdata(DFE.mixture([mu, sigma, rho, p2d], None, cache1, cache2, PDFs.lognormal, PDFs.biv_lognormal, theta, None,
+                                                      exterior_int=False)), float)
+    with dadi_call('integrate(exterior_int=False)'):
+        f1_in = np.asarray(np.ma.getdata(cache1.integrate([mu, sigma], None, PDFs.lognormal, theta, None, exterior_int=False)), float)
+        f2_in = np.asarray(np.ma.getdata(cache2.integrate([mu, sigma, rho], None, PDFs.biv_lognormal, theta, None, exterior_int=False)), float)
+    require_close(got_in, (1 - p2d) * f1_in + p2d * f2_in, 1e-12, 'mixture(exterior_int=False) = (1-p2d) x in-range 1-D + p2d x in-range 2-D', rec,
+                  key='mixture interior')
     # and the 1-D component against the oracle
     gpos = -np.asarray(cache1.neg_gammas, float)[::-1]
     S = np.array([np.asarray(np.ma.getdata(m2([0.7, -x, -x], None, None)), float) for x in gpos])
@@ -580,7 +589,8 @@ def pdf_case(draw):
         params = [a(), b()] if k in (2, 3) else [a(), a(), b(), b()]
         if k in (3, 5):
             params.append(draw(st.floats(-0.9, 0.9)))
-    return dict(which=which, xs=xs, ys=ys, params=params, scalar=draw(st.booleans()))
+    # the coordinates handed over as contiguous arrays, as strided views (every other element of a longer array), or reversed views
+    return dict(which=which, xs=xs, ys=ys, params=params, scalar=draw(st.booleans()), layout=draw(st.sampled_from(['C', 'C', 'strided', 'reversed'])))
 
 
 @REG.relation('R6-compiled-pdfs', strategy=pdf_case, quick=(3000, 8), thorough=(40000, 16))
@@ -590,8 +600,19 @@ def r6(case, rec):
     rec.case(case, len(xs) > 1 or len(ys) > 1, [case['which'], 'nparams=%d' % len(case['params'])])
     f_c = getattr(PDFs, case['which'])
     f_py = getattr(PDFs, case['which'] + '_py')
+    lay = case.get('layout', 'C')
+
+    def view(a):
+        if lay == 'strided':
+            big = np.full(2 * len(a), -7.0)
+            big[::2] = a
+            return big[::2]
+        if lay == 'reversed':
+            return np.array(a[::-1])[::-1]
+        return a
+    rec.label('layout=' + lay)
     with dadi_call(case['which']):
-        got = np.asarray(f_c(xs, ys, case['params']), float)
+        got = np.asarray(f_c(view(xs), view(ys), case['params']), float)
     exp = np.asarray(f_py(xs, ys, case['params']), float)
     # independent third opinion
     d = Q.BivLognormal(case['params']) if case['which'] == 'biv_lognormal' else Q.BivIndGamma(case['params'])
